@@ -309,6 +309,9 @@ enum ProbeKind {
     RetryValid,
     RetryBadTag(usize),
     RetryTwice,
+    /// the server's first datagram is cut down to its Initial packet in transit and a Retry whose tag
+    /// verifies against the connection ID the client uses from then on arrives right behind it
+    RetryAfterLoneInitial,
     Nothing,
 }
 
@@ -508,11 +511,54 @@ fn run_probe(base: Instant, c: &ProbeCase) -> ProbeOut {
                             }
                             p.w.inject(peer_addr, target_addr, d.clone(), Duration::ZERO);
                             if c.kind == ProbeKind::RetryTwice {
-                                let d2 = build(&[0xdd; 8], b"second-forged-token");
+                                // the second one verifies against the connection ID the client uses
+                                // after having followed the first
+                                let mut d2 = vec![0xf0u8];
+                                d2.extend_from_slice(&ini.version.to_be_bytes());
+                                d2.push(ini.scid.len() as u8);
+                                d2.extend_from_slice(&ini.scid);
+                                d2.push(8);
+                                d2.extend_from_slice(&[0xdd; 8]);
+                                d2.extend_from_slice(b"second-forged-token");
+                                let tag = mtls::retry_tag(&proto::ConnectionId::new(&[0xee; 8]), &d2);
+                                d2.extend_from_slice(&tag);
                                 p.w.inject(peer_addr, target_addr, d2, Duration::from_micros(10));
                             }
                         }
                     },
+                    ProbeKind::RetryAfterLoneInitial => {
+                        let ccl = p.w.nodes[CLIENT].cid_len;
+                        let mut found = None;
+                        for (i, f) in p.w.net.iter().enumerate() {
+                            if f.dst == target_addr && f.src == peer_addr && !f.injected {
+                                let (pk, _) = wire::parse_datagram(&f.data, ccl);
+                                if pk.len() >= 2 && pk[0].ty == PType::Initial && pk[0].start == 0 {
+                                    found = Some((i, pk[0].len, pk[0].scid.clone(), pk[0].dcid.clone(), pk[0].version));
+                                    break;
+                                }
+                            }
+                        }
+                        match found {
+                            None => applicable = false,
+                            Some((i, len, srv_cid, cli_cid, version)) => {
+                                p.w.net[i].data.truncate(len);
+                                let at = p.w.net[i].at;
+                                let mut d = vec![0xf0u8];
+                                d.extend_from_slice(&version.to_be_bytes());
+                                d.push(cli_cid.len() as u8);
+                                d.extend_from_slice(&cli_cid);
+                                d.push(8);
+                                d.extend_from_slice(&[0xee; 8]);
+                                d.extend_from_slice(b"forged-retry-token");
+                                let tag = mtls::retry_tag(&proto::ConnectionId::new(&srv_cid), &d);
+                                d.extend_from_slice(&tag);
+                                let after = at.saturating_sub(p.w.t) + Duration::from_micros(1);
+                                p.w.inject(peer_addr, target_addr, d, after);
+                                // by the time the Retry arrives the lone Initial has been processed
+                                accepted_before = true;
+                            }
+                        }
+                    }
                 }
             }
             let pending_inj = p.w.net.iter().any(|f| f.injected);
@@ -572,6 +618,75 @@ fn run_probe(base: Instant, c: &ProbeCase) -> ProbeOut {
                 viol,
             }
         }
+    }
+}
+
+/// Client-side Retry rules (used by C14): forged Retry packets whose integrity tag verifies, at every
+/// step index; a Retry is followed at most once and never after a server packet was accepted.
+pub fn retry_probe_part(rep: &mut Report, base: Instant, thorough: bool, dl: Instant) {
+    let baseline = run_probe(base, &ProbeCase { rotating: false, target: CLIENT, at_step: 0, kind: ProbeKind::Nothing });
+    let mut kinds = vec![ProbeKind::RetryValid, ProbeKind::RetryTwice, ProbeKind::RetryAfterLoneInitial];
+    for b in 0..128 {
+        if thorough || b % 5 == 0 {
+            kinds.push(ProbeKind::RetryBadTag(b));
+        }
+    }
+    let steps: Vec<u64> = if thorough { (0..60).collect() } else { (0..14).chain([16, 20, 30, 40]).collect() };
+    let mut cases = vec![];
+    for &s in &steps {
+        for k in &kinds {
+            cases.push(ProbeCase { rotating: false, target: CLIENT, at_step: s, kind: k.clone() });
+        }
+    }
+    let n = cases.len();
+    let (res, capped) = e3(cases, dl, |c| run_probe(base, c));
+    rep.exhaustive &= !capped;
+    let (mut followed, mut lone, mut late) = (0u64, 0u64, 0u64);
+    for (c, o) in &res {
+        rep.evaluations += 1;
+        if !o.applicable {
+            continue;
+        }
+        rep.distinct.insert(o.events ^ c.at_step.wrapping_mul(0x9e37_79b9_7f4a_7c15));
+        let mut v = o.viol.clone();
+        match &c.kind {
+            ProbeKind::RetryBadTag(_) => {
+                if o.retries_seen > 0 || o.events != baseline.events {
+                    v.push(("retry-bad-tag-followed".into(), "a Retry whose integrity tag does not verify changed the client's behaviour".into()));
+                }
+            }
+            _ => {
+                if c.kind == ProbeKind::RetryAfterLoneInitial {
+                    lone += 1;
+                }
+                if o.server_packet_accepted_before {
+                    late += 1;
+                }
+                if o.retries_seen > 0 {
+                    followed += 1;
+                }
+                if o.retries_seen > 1 {
+                    v.push(("retry-followed-twice".into(), format!("the client followed {} Retry packets", o.retries_seen)));
+                }
+                if o.server_packet_accepted_before && o.retries_seen > 0 {
+                    v.push(("late-retry-followed".into(), "a Retry arriving after a server packet was accepted was followed".into()));
+                }
+                if o.server_packet_accepted_before && o.events != baseline.events {
+                    v.push(("late-retry-changed-outcome".into(), "a Retry arriving after a server packet was accepted changed the outcome".into()));
+                }
+            }
+        }
+        for (sig, what) in v {
+            rep.violation(Violation {
+                signature: format!("{sig}:client"),
+                what: format!("step={} probe={:?}: {what}", c.at_step, c.kind),
+                replay: json!({"check":"c04","kind":"probe","target":c.target,"step":c.at_step,"probe":format!("{:?}",c.kind),"rotating":false}),
+            });
+        }
+    }
+    rep.part("client_retry_probes", json!({"cases": n, "executed": res.len(), "valid_retries_followed": followed, "retry_after_lone_initial_cases": lone, "retries_after_accepted_server_packet": late, "capped": capped}));
+    if followed == 0 || lone == 0 || late == 0 {
+        machinery("vacuity guard: no valid Retry followed / no lone-Initial case / no late Retry");
     }
 }
 
@@ -750,6 +865,7 @@ pub fn main(args: &Args) -> ! {
         ProbeKind::VersionNeg { includes_ours: true },
         ProbeKind::RetryValid,
         ProbeKind::RetryTwice,
+        ProbeKind::RetryAfterLoneInitial,
     ];
     for b in 0..128 {
         if thorough || b % 9 == 0 {
@@ -764,7 +880,7 @@ pub fn main(args: &Args) -> ! {
     for target in [CLIENT, SERVER] {
         for &s in &steps {
             for k in &kinds {
-                let client_only = matches!(k, ProbeKind::VersionNeg { .. } | ProbeKind::RetryValid | ProbeKind::RetryBadTag(_) | ProbeKind::RetryTwice);
+                let client_only = matches!(k, ProbeKind::VersionNeg { .. } | ProbeKind::RetryValid | ProbeKind::RetryBadTag(_) | ProbeKind::RetryTwice | ProbeKind::RetryAfterLoneInitial);
                 if client_only && target == SERVER {
                     continue;
                 }
@@ -788,10 +904,14 @@ pub fn main(args: &Args) -> ! {
     let mut resets_effective = 0u64;
     let mut retries_followed = 0u64;
     let mut vn_effective = 0u64;
+    let mut lone_initial = 0u64;
     for (c, o) in &res {
         rep.evaluations += 1;
         if !o.applicable {
             continue;
+        }
+        if c.kind == ProbeKind::RetryAfterLoneInitial {
+            lone_initial += 1;
         }
         let baseline = if c.rotating { &baseline_rot } else { &baseline_plain };
         let mut h = std::collections::hash_map::DefaultHasher::new();
@@ -839,7 +959,7 @@ pub fn main(args: &Args) -> ! {
                     v.push(("retry-bad-tag-followed".into(), "a Retry whose integrity tag does not verify changed the client's behaviour".into()));
                 }
             }
-            ProbeKind::RetryValid | ProbeKind::RetryTwice => {
+            ProbeKind::RetryValid | ProbeKind::RetryTwice | ProbeKind::RetryAfterLoneInitial => {
                 if o.retries_seen > 0 {
                     retries_followed += 1;
                 }
@@ -863,8 +983,8 @@ pub fn main(args: &Args) -> ! {
             });
         }
     }
-    rep.part("probes", json!({"cases": nprobe, "executed": res.len(), "exact_resets_effective": resets_effective, "valid_retries_followed": retries_followed, "vn_effective": vn_effective, "capped": capped}));
-    if resets_effective == 0 || retries_followed == 0 || vn_effective == 0 {
+    rep.part("probes", json!({"cases": nprobe, "executed": res.len(), "exact_resets_effective": resets_effective, "valid_retries_followed": retries_followed, "vn_effective": vn_effective, "retry_after_lone_initial_cases": lone_initial, "capped": capped}));
+    if resets_effective == 0 || retries_followed == 0 || vn_effective == 0 || lone_initial == 0 {
         machinery("vacuity guard: no exact reset / valid Retry / early VN ever took effect — probe construction is wrong");
     }
     rep.sample(json!({"kind":"probe","target":"client","step":20,"probe":"ResetBitFlip(9)","meaning":"a 46-byte datagram from the server's address ending in the reset token of the server CID in use with bit 9 flipped"}));
@@ -876,7 +996,7 @@ pub fn main(args: &Args) -> ! {
     rep.finish()
 }
 
-fn replay(args: &Args) -> ! {
+pub fn replay(args: &Args) -> ! {
     let path = args.replay.as_ref().unwrap();
     let v: Value = serde_json::from_str(&std::fs::read_to_string(path).unwrap_or_else(|e| machinery(&format!("{e}")))).unwrap_or_else(|e| machinery(&format!("{e}")));
     let r = &v["replay"];
@@ -981,6 +1101,7 @@ fn parse_probe(s: &str) -> ProbeKind {
         "ResetShort" => ProbeKind::ResetShort,
         "RetryValid" => ProbeKind::RetryValid,
         "RetryTwice" => ProbeKind::RetryTwice,
+        "RetryAfterLoneInitial" => ProbeKind::RetryAfterLoneInitial,
         x if x.starts_with("ResetBitFlip") => ProbeKind::ResetBitFlip(n[0] as usize),
         x if x.starts_with("RetryBadTag") => ProbeKind::RetryBadTag(n[0] as usize),
         x if x.starts_with("VersionNeg") => ProbeKind::VersionNeg { includes_ours: x.contains("true") },
